@@ -87,6 +87,8 @@ Step(op, s, i, k, v, p, kd) ==
          LET x == Ins(K, q, n, q[p + 1].k, q[k + 1].v) IN {Out(s, i, x.q, IF K = "hashset" THEN NoRes ELSE x.pos, NoB)}
     [] op = "rmkeyown" /\ p \in 0..(n - 1) -> {Out(s, i, RemoveAt(q, p + 1), NoRes, NoB)}  \* remove(key of own entry p)
     [] op = "nop" -> {[kind |-> s.kind, c |-> s.c, r |-> NoRes, b |-> NoB]}
+    \* both variables destroyed and recreated as default HashMaps (harness operation of the C04 check: lifetime balance)
+    [] op = "fini" -> {[kind |-> <<"hashmap", "hashmap">>, c |-> << <<>>, <<>> >>, r |-> NoRes, b |-> NoB]}
     [] OTHER -> {}
 
 \* ------------------------------------------------------------------------------------------------------------
